@@ -296,6 +296,12 @@ def lift(case, result):
     res2 = execute(lifted)
     if not res2['ok'] and not res2.get('error') and res2['violation']['class'].split(':')[0] == klass:
         return lifted, res2, 'lifted-as-is'
+    if case['knobs']['chunk'] == DEFAULT_KNOBS['chunk'] and case['knobs']['zchunk'] == DEFAULT_KNOBS['zchunk']:
+        # Only the SQL batch / lookup-strategy thresholds are lowered. C16 states that results do not depend on which
+        # strategy or batch size the request count triggers; a lowered threshold with few keys exercises the same code
+        # as the shipped threshold with many keys (engine K lifts such failures to real sizes; histories are reported
+        # with the lowered thresholds recorded in the replay file).
+        return case, result, 'sql-thresholds-lowered (strategy/batch switch reached with few keys)'
     # scale contents so that the same chunk boundaries are crossed at the shipped constants
     knobs = case['knobs']
     factor = max(DEFAULT_KNOBS['chunk'] // max(1, knobs['chunk']), DEFAULT_KNOBS['zchunk'] // max(1, knobs['zchunk']))
